@@ -27,6 +27,7 @@ import (
 
 	"github.com/oasisprotocol/oasis-core/go/common/crypto/hash"
 	cmtapi "github.com/oasisprotocol/oasis-core/go/consensus/cometbft/api"
+	staking "github.com/oasisprotocol/oasis-core/go/staking/api"
 	"github.com/oasisprotocol/oasis-core/go/storage/mkvs"
 	dbApi "github.com/oasisprotocol/oasis-core/go/storage/mkvs/db/api"
 	"github.com/oasisprotocol/oasis-core/go/storage/mkvs/node"
@@ -85,8 +86,11 @@ type config struct {
 	// WorkingSetNodes is 2D+4 for this history; class "tiny" iff 0 < CapNodes < WorkingSetNodes.
 	WorkingSetNodes uint64 `json:"working_set_nodes"`
 	Mechanism       string `json:"overlay_mechanism"` // raw | ctx
-	StartVer        uint64 `json:"start_version"`
-	Finalize        bool   `json:"finalize_every_version"`
+	// CtxMode is the mode of the base api.Context (ctx mechanism): the overlay stack must behave
+	// as a map in every mode (InitChain, CheckTx, DeliverTx, SimulateTx, BeginBlock, EndBlock).
+	CtxMode  string `json:"context_mode,omitempty"`
+	StartVer uint64 `json:"start_version"`
+	Finalize bool   `json:"finalize_every_version"`
 }
 
 func (c *config) tag(layer string) string {
@@ -178,6 +182,24 @@ type capChoice struct {
 	name, class string
 	set         bool
 	nodes, vals uint64
+}
+
+// ctxModes are all valid context modes.
+var ctxModes = []cmtapi.ContextMode{
+	cmtapi.ContextDeliverTx, cmtapi.ContextSimulateTx, cmtapi.ContextCheckTx,
+	cmtapi.ContextBeginBlock, cmtapi.ContextEndBlock, cmtapi.ContextInitChain,
+}
+
+// ctxMode derives the base context's mode from the other configuration values (no PRNG draw).
+func ctxMode(c *config) cmtapi.ContextMode {
+	i := len(c.Backend) + int(c.StartVer%7) + len(c.Capacity)
+	if c.NoWriteLog {
+		i += 3
+	}
+	if c.Finalize {
+		i += 5
+	}
+	return ctxModes[i%len(ctxModes)]
 }
 
 func genConfig(rng *rand.Rand) config {
@@ -593,7 +615,7 @@ func execute(cfg *config, ops []op, st *stats) (f *failure) {
 	newBase := func(m *lab.Model) *layer {
 		l := &layer{kind: "tree", kv: tree, model: m}
 		if cfg.Mechanism == "ctx" {
-			l.ctx = cmtapi.NewContext(bg, cmtapi.ContextDeliverTx, time.Unix(1, 0), nil, nil, tree, nil, 0, 1)
+			l.ctx = cmtapi.NewContext(bg, ctxMode(cfg), time.Unix(1, 0), nil, nil, tree, nil, 0, 1)
 			l.kv = l.ctx.State()
 		}
 		return l
@@ -819,7 +841,23 @@ func execute(cfg *config, ops []op, st *stats) (f *failure) {
 			nl := &layer{model: l.model.Clone()}
 			if cfg.Mechanism == "ctx" {
 				nl.kind = "ctx"
-				nl.ctx = l.ctx.NewTransaction()
+				// The transaction is opened the ways the applications do it: directly, or on a
+				// child context that shares the parent's state (plain child, simulation child,
+				// child with another caller address). Chosen from the operation's key so that
+				// the operation stream of a seed does not move.
+				parent := l.ctx
+				switch len(o.k) % 4 {
+				case 1:
+					parent = parent.NewChild()
+					count("ctx-push-via-NewChild")
+				case 2:
+					parent = parent.WithSimulation()
+					count("ctx-push-via-WithSimulation")
+				case 3:
+					parent = parent.WithCallerAddress(staking.CommonPoolAddress)
+					count("ctx-push-via-WithCallerAddress")
+				}
+				nl.ctx = parent.NewTransaction()
 				nl.kv = nl.ctx.State()
 			} else {
 				nl.kind = "overlay"
@@ -986,6 +1024,9 @@ func runCase(i int) {
 	run.Count("overlay_inserts_shadowing_lower_layer", st.overlayShadow)
 	run.Count("histories/"+cfg.Backend, 1)
 	run.Count("histories/mechanism-"+cfg.Mechanism, 1)
+	if cfg.Mechanism == "ctx" {
+		run.Count("histories/ctx-mode-"+ctxMode(&cfg).String(), 1)
+	}
 	run.Count("histories/cap-"+cfg.CapClass, 1)
 	if cfg.NoWriteLog {
 		run.Count("histories/without-write-log", 1)
